@@ -79,7 +79,7 @@ Add(u, n, h) == AddObj(u, n, h) /\ UNCHANGED puid
 
 \* a new remote created without uid: the stack hands out the next unused uid after puid
 NextFree(p) == Min({x \in (p + 1)..(p + MaxRemotes + 2) : x \notin TakenUids})
-AddAuto(n, h) == LET u == NextFree(puid) IN AddObj(u, n, h) /\ puid' = u
+AddAuto(n, h) == AutoUid /\ LET u == NextFree(puid) IN AddObj(u, n, h) /\ puid' = u
 
 \* adding a member once more
 AddAgain(id) == id \in Members /\ Reject /\ UNCHANGED puid
@@ -128,13 +128,15 @@ Twin(dim, k) ==
     LET ix == CASE dim = 1 -> uidIx [] dim = 2 -> nameIx [] OTHER -> haIx IN
     IF k \in Keys(ix) THEN attr[IdAt(ix, k)]
     ELSE CASE dim = 1 -> <<k, FreshName, FreshHa>> [] dim = 2 -> <<FreshUid, k, FreshHa>> [] OTHER -> <<FreshUid, FreshName, k>>
-MoveT(k, new) == LET f == Twin(1, k) IN MoveF(f[1], f[2], f[3], new)
-RenameT(k, new) == LET f == Twin(2, k) IN RenameF(f[1], f[2], f[3], new)
-RehaT(k, new) == LET f == Twin(3, k) IN RehaF(f[1], f[2], f[3], new)
-RemoveT(dim, k) == LET f == Twin(dim, k) IN RemoveF(f[1], f[2], f[3])
+\* (written out rather than through MoveF etc. so that TLC labels the step with k and new)
+ForeignRes(old, new) == IF new = old THEN Noop ELSE Rej
+MoveT(k, new) == UNCHANGED <<state, puid>> /\ res' = ForeignRes(Twin(1, k)[1], new)
+RenameT(k, new) == UNCHANGED <<state, puid>> /\ res' = ForeignRes(Twin(2, k)[2], new)
+RehaT(k, new) == UNCHANGED <<state, puid>> /\ res' = ForeignRes(Twin(3, k)[3], new)
+RemoveT(dim, k) == UNCHANGED <<state, puid>> /\ res' = Rej
 
 Next == \/ \E u \in Uids, n \in Names, h \in Has : Add(u, n, h)
-        \/ AutoUid /\ \E n \in Names, h \in Has : AddAuto(n, h)
+        \/ \E n \in Names, h \in Has : AddAuto(n, h)
         \/ \E id \in Ids : AddAgain(id) \/ Remove(id)
         \/ \E id \in Ids, new \in Uids : Move(id, new)
         \/ \E id \in Ids, new \in Names : Rename(id, new)
